@@ -35,6 +35,12 @@ def run(chk):
         Tt = g.num(250, 400, 1)
         Tb = Tt + g.num(0, 1500, 1)
         m = {"model": kind, "max depth": md, "top temperature": Tt, "bottom temperature": Tb}
+        x, y = float(round(rng.uniform(-8e5, 8e5))), float(round(rng.uniform(-8e5, 8e5)))
+        local_md = md
+        if wi % 3 == 0 and kind != "half space model":
+            # the model's max depth is a surface: shallower at the ladder position than its largest value
+            local_md = float(round(md * rng.uniform(0.4, 0.8)))
+            m["max depth"] = [[md], [local_md, [[x, y]]]]
         ridges = None
         if kind in ("half space model", "plate model"):
             ridges = g.ridges((0.0, 0.0), False)
@@ -47,8 +53,7 @@ def run(chk):
         w["features"] = [f]
         slot = cs.add_world(w)
         # (a) depth ladder
-        x, y = rng.uniform(-8e5, 8e5), rng.uniform(-8e5, 8e5)
-        ds = [md * i / 60.0 for i in range(61)]
+        ds = [local_md * i / 60.0 for i in range(61)]
         ladder = [cs.single3(slot, "t3", (x, y, TOP - d), d) for d in ds]
         age = None
         if ridges:
@@ -68,10 +73,65 @@ def run(chk):
             al = [cs.single3(slot, "t3", (p[0], p[1], TOP - d), d) for p in pts]
             ages = [ridge_distance_cart(ridges, p) / (m["spreading velocity"] / SEC_YEAR) for p in pts]
             plan.append(("age", al, ages, w, m, d, kappa, md))
+    # (d) slab temperature models (mass conserving, slab plate model): between the surface temperature and the background
+    # adiabat (computed with the model's own expansivity / specific heat where it sets them); not modelled in Gallina: oracle only
+    from worlds import line_world
+    from qgen import line_query
+    slab_plan = []
+    for wi in range(25 if quick else 300):
+        wj, sph, f = line_world(rng, kind="subducting plate", spherical=False, straight=rng.random() < 0.7, uniform_sections=True,
+                                allow_mass_conserving=True, extra_area=0.0)
+        for k in ("temperature models", "composition models", "grains models", "velocity models", "sections"):
+            f.pop(k, None)
+        for sg in f["segments"]:
+            for k in ("temperature models", "composition models", "grains models", "velocity models"):
+                sg.pop(k, None)
+        m = None
+        for _ in range(60):
+            m = g.slab_temp_model("subducting plate", True)
+            if m["model"] in ("mass conserving", "plate model"):
+                break
+        m.pop("operation", None)
+        if m["model"] == "mass conserving":
+            a, b = f["coordinates"][0], f["coordinates"][-1]
+            dx, dy = b[0] - a[0], b[1] - a[1]
+            L = math.hypot(dx, dy)
+            dp = f["dip point"]
+            nx, ny = -dy / L, dx / L
+            if (dp[0] - a[0]) * nx + (dp[1] - a[1]) * ny < 0:
+                nx, ny = -nx, -ny
+            m["ridge coordinates"] = [[[float(round(a[0] - nx * 8e5 - dx)), float(round(a[1] - ny * 8e5 - dy))],
+                                       [float(round(b[0] - nx * 8e5 + dx)), float(round(b[1] - ny * 8e5 + dy))]]]
+            if rng.random() < 0.5:
+                m["specific heat"] = float(round(rng.uniform(900, 1600)))
+            if rng.random() < 0.5:
+                m["thermal expansion coefficient"] = round(rng.uniform(2e-5, 4e-5), 7)
+        f["temperature models"] = [m]
+        f["composition models"] = [{"model": "uniform", "compositions": [0]}]
+        slot = cs.add_world(wj, model=False)
+        for qi in range(30):
+            q, d = line_query(rng, wj, False, f, spread=rng.choice([0.2, 0.5]))
+            if d >= 0:
+                slab_plan.append((cs.p3(slot, q, d, [[1, 0, 0], [4, 0, 0]]), wj, m, d))
     impl, model = cs.run()
     chk.evaluations = len(impl)
     bad = chk.correspond(impl, model, cs, max_ulp=0)
     viol = []
+    for i, wj, m, d in slab_plan:
+        v = common.parse_vec(impl[i])
+        if v is None or v[1] < 0:
+            continue
+        chk.nontriv(cs.probe[i])
+        Ts, Tp = wj.get("surface temperature", 293.15), wj.get("potential mantle temperature", 1600)
+        al, cp = wj.get("thermal expansion coefficient", 3.5e-5), wj.get("specific heat", 1250)
+        gr = wj.get("gravity model", {}).get("magnitude", 9.81)
+        al2, cp2 = m.get("thermal expansion coefficient", -1), m.get("specific heat", -1)
+        al2, cp2 = (al if al2 < 0 else al2), (cp if cp2 < 0 else cp2)
+        hot = max(Tp * math.exp(al * gr * d / cp), Tp * math.exp(al2 * gr * d / cp2))
+        if not (Ts - 1e-6 * Ts <= v[0] <= hot + 1e-6 * hot):
+            dsc = cs.describe(i)
+            dsc["temperature"], dsc["surface_temperature"], dsc["adiabat"] = v[0], Ts, hot
+            viol.append(("slab %s temperature %.6g K lies outside [surface temperature %.6g K, background adiabat %.6g K]" % (m["model"], v[0], Ts, hot), dsc))
     for pl in plan:
         if pl[0] == "depth":
             _, ladder, ds, w, m, age, kappa, md = pl
@@ -101,7 +161,7 @@ def run(chk):
             if abs(T[0] - Tt) > 1e-6 * max(1.0, Tt) and not (m["model"] == "half space model" and age is not None and age <= 0):
                 if not (young and chk.known("D15", "")):
                     viol.append(("%s: temperature at the top boundary is %.9g, prescribed %.9g" % (m["model"], T[0], Tt), cs.describe(ladder[0])))
-            if m["model"] != "half space model" and abs(T[-1] - Tb) > 1e-6 * max(1.0, Tb):
+            if m["model"] != "half space model" and (not isinstance(m["max depth"], list) or m["model"] == "linear") and abs(T[-1] - Tb) > 1e-6 * max(1.0, Tb):
                 if not (young and chk.known("D15", "")):
                     viol.append(("%s: temperature at the bottom boundary is %.9g, prescribed %.9g" % (m["model"], T[-1], Tb), cs.describe(ladder[-1])))
         else:
